@@ -377,6 +377,8 @@ def compare(case, out):
 
 def oracle(case):
     """the abstract description the text was printed from is what must be read back"""
+    if case.get("op") == "bdldata" and case.get("description") and "ok" in case["impl"]:
+        return typed_vs_description(case)
     exp = case.get("expected")
     if exp is None:
         return []
@@ -391,6 +393,57 @@ def oracle(case):
         return [{"what": f"{case['label']}: parsed blocks differ from the description the text was printed from: {d}",
                  "key": {"class": "value-not-recovered", "kind": kind}}]
     return []
+
+
+AIR_GAP_SIZES = {" 1 cm": 0.01, " 2 cm": 0.02, " 5 cm": 0.05, "10 cm": 0.10}
+
+
+def _close(a, b):
+    return isinstance(a, (int, float)) and isinstance(b, (int, float)) and abs(a - b) <= 1e-6 * max(1.0, abs(b))
+
+
+def typed_vs_description(case):
+    """the typed elements built from a generated project carry what its description (the thing the text was printed from) says:
+    layer materials and thicknesses (the library air-gap sizes being the documented exception), window sizes and offsets, daily values"""
+    d, t = case["description"], case["impl"]["ok"]
+    v = []
+    _stats["typed_documents_checked_against_description"] += 1
+    cons = {c["key"]: c for c in t["wallcons"]}
+    for l in d.get("layers", []):
+        c = cons.get(l["name"])
+        if c is None:
+            v.append({"what": f"{case['label']}: layer construction {l['name']!r} written in the file is not among the typed constructions", "key": {"class": "typed-missing", "coll": "wallcons"}})
+            continue
+        want_m = [m.replace("  ", " ") for m in l["materials"]]
+        got_m = [m.replace("  ", " ") for m in c["material"]]
+        if want_m != got_m:
+            v.append({"what": f"{case['label']}: construction {l['name']!r}: materials written {want_m}, typed {got_m}", "key": {"class": "typed-value", "field": "wallcons.material"}})
+            continue
+        for k, (m, th) in enumerate(zip(l["materials"], l["thickness"])):
+            want = AIR_GAP_SIZES.get(m[-5:], th) if m.startswith("Cámara de aire") else th
+            got = c["thickness"][k] if k < len(c["thickness"]) else None
+            if not _close(got, want):
+                v.append({"what": f"{case['label']}: construction {l['name']!r}, layer {k} ({m!r}): thickness written {th}"
+                                  + (f" (library air-gap size {want})" if want != th else "") + f", typed {got}", "key": {"class": "typed-value", "field": "wallcons.thickness"}})
+                break
+    wins = {w["name"]: w for w in t["windows"]}
+    for f in d.get("floors", []):
+        for sp in f.get("spaces", []):
+            for wl in sp.get("walls", []):
+                for w in wl.get("windows", []):
+                    g = wins.get(w["name"])
+                    if g is None:
+                        v.append({"what": f"{case['label']}: window {w['name']!r} written in the file is not among the typed windows", "key": {"class": "typed-missing", "coll": "windows"}})
+                        continue
+                    for fld, src in (("x", "x"), ("y", "y"), ("width", "w"), ("height", "h"), ("setback", "setback")):
+                        if not _close(g[fld], w[src]):
+                            v.append({"what": f"{case['label']}: window {w['name']!r}: {fld} written {w[src]}, typed {g[fld]}", "key": {"class": "typed-value", "field": "windows." + fld}})
+    days = {x["name"]: x for x in t["schedules"] if x.get("kind") == "day"}
+    for dd in d.get("days", []):
+        g = days.get(dd["name"])
+        if g is not None and len(dd["values"]) == 24 and not (len(g["values"]) == 24 and all(_close(a, b) for a, b in zip(g["values"], dd["values"]))):
+            v.append({"what": f"{case['label']}: daily schedule {dd['name']!r}: values written {dd['values'][:4]}.., typed {g['values'][:4]}..", "key": {"class": "typed-value", "field": "day.values"}})
+    return v[:3]
 
 
 def nontrivial(case):
